@@ -17,6 +17,7 @@ public class JDrive {
   static boolean jedge(int Z, double x) { for (int sh = 0; sh < 31; sh++) { try { if (Xraylib.EdgeEnergy(Z, sh) == x) return true; } catch (RuntimeException e) { } } return false; }
   static String alts(String a) { if (a.isEmpty()) return "[]"; StringBuilder sb = new StringBuilder("["); for (String p : a.split("/")) { String[] q = p.split(","); if (sb.length() > 1) sb.append(",");
       sb.append("[").append(q[0]).append(",0,").append(q[0].equals("1") ? "[[" + q[1] + "," + q[2] + "]]" : "[]").append("]"); } return sb.append("]").toString(); }
+  static List<Method> mtM = new ArrayList<>(); static List<Object[]> mtA = new ArrayList<>(); static List<String> mtR = new ArrayList<>();     // scalar calls and their serial outcomes, for the threaded pass
   static Map<String, Method> cache = new HashMap<>();
   static Method find(String fn, Class<?>[] types) { String key = fn + Arrays.toString(types); if (cache.containsKey(key)) return cache.get(key); Method m = null; try { m = Xraylib.class.getMethod(fn, types); } catch (Exception e) { } cache.put(key, m); return m; }
   static long hashObj(Object o) throws Exception {   // field-wise digest of result objects, same recipe as the C side (c19.c)
@@ -123,13 +124,29 @@ public class JDrive {
       Method m = sp ? null : find(fn, types.toArray(new Class<?>[0]));
       if (m == null && !sp) { missing.add(fn + "(" + sig + ")"); continue; }
       n++;
-      int jok; long jhash = 0; String jd = ""; String exc = "";
+      int jok; long jhash = 0; String jd = ""; String exc = ""; boolean r_isScalar = false;
       try { Object r; try { r = sig.equals("XP") ? pspecial(fn, i0, i1, d[0]) : m == null ? special(fn, i0, i1, d, s) : m.invoke(null, args.toArray()); } catch (InvocationTargetException e) { throw e; } catch (NoSuchMethodException e) { missing.add(fn + "(X)"); n--; continue; } catch (RuntimeException e) { throw new InvocationTargetException(e); }
-        jok = 1; jhash = (r instanceof Double || r instanceof Complex) ? 0 : hashObj(r); double[] v = doubles(r); StringBuilder sb = new StringBuilder(); for (int k = 0; k < v.length; k++) { if (k > 0) sb.append(";"); long b = Double.doubleToRawLongBits(v[k]); sb.append((int) (b >> 32)).append(",").append((int) b); } jd = sb.toString(); scribble(r); }
+        r_isScalar = r instanceof Double; jok = 1; jhash = (r instanceof Double || r instanceof Complex) ? 0 : hashObj(r); double[] v = doubles(r); StringBuilder sb = new StringBuilder(); for (int k = 0; k < v.length; k++) { if (k > 0) sb.append(";"); long b = Double.doubleToRawLongBits(v[k]); sb.append((int) (b >> 32)).append(",").append((int) b); } jd = sb.toString(); scribble(r); }
       catch (InvocationTargetException e) { jok = 0; exc = e.getCause().getClass().getSimpleName(); }
+      if (m != null && mtM.size() < 24000 && (r_isScalar || jok == 0)) { mtM.add(m); mtA.add(args.toArray()); mtR.add(jok == 0 ? "!" : jd); }
       if (jok == cok && (cok == 0 || (jhash == chash && jd.equals(cd)))) { same++; continue; }
       { if (diffs.length() > 0) diffs.append(",");
         diffs.append("{\"a\":[" + i0 + "," + i1 + "],\"d\":[" + bits(d[0]) + "," + bits(d[1]) + "," + bits(d[2]) + "],\"s\":\"" + esc(s) + "\",\"c\":[" + cok + "," + chash + "," + dl(cd) + "],\"j\":[" + jok + "," + jhash + "," + dl(jd) + "],\"sc\":" + (extra.isEmpty() ? "[0,0]" : "[" + extra + "]") + ",\"alt\":" + alts(alt) + ",\"xe\":" + (cedge && jedge(i0, d[0]) ? 1 : 0) + ",\"exc\":\"" + exc + "\"}"); }
+    }
+    // the recorded scalar calls once more from four threads at once, all walking the same list a few entries apart (so that they sit in the
+    // same method with different arguments): every outcome must be the one the call gave alone
+    if (mtM.size() > 100) {
+      final int NT = 4; final java.util.concurrent.atomic.AtomicLong bad = new java.util.concurrent.atomic.AtomicLong(), done = new java.util.concurrent.atomic.AtomicLong(); final String[] firstBad = {""};
+      Thread[] th = new Thread[NT];
+      for (int t = 0; t < NT; t++) { final int off = t * 13; th[t] = new Thread(() -> {
+          int n2 = mtM.size();
+          for (int rep = 0; rep < 2; rep++) for (int i = 0; i < n2; i++) { int k = (i + off) % n2; String got;
+            try { Object r = mtM.get(k).invoke(null, mtA.get(k)); long b = Double.doubleToRawLongBits((Double) r); got = (int) (b >> 32) + "," + (int) b; }
+            catch (InvocationTargetException e) { got = "!"; } catch (Exception e) { got = "?"; }
+            if (!got.equals(mtR.get(k))) { if (bad.incrementAndGet() == 1) firstBad[0] = mtM.get(k).getName() + Arrays.toString(mtA.get(k)); }
+            done.incrementAndGet(); } }); th[t].start(); }
+      for (Thread x : th) x.join();
+      out.println("{\"k\":\"jmt\",\"threads\":" + NT + ",\"calls\":" + done.get() + ",\"mismatch\":" + bad.get() + ",\"first\":\"" + esc(firstBad[0]) + "\"}");
     }
     for (String m : missing) out.println("{\"k\":\"jmissing\",\"fn\":\"" + m + "\"}");
     Set<String> all = new TreeSet<>(); for (Method m : Xraylib.class.getDeclaredMethods()) if (Modifier.isPublic(m.getModifiers()) && Modifier.isStatic(m.getModifiers())) all.add(m.getName());
